@@ -46,3 +46,28 @@ Proof.
 Qed.
 
 End Main.
+
+(* ------------------------------------------------------------------ the converse and the bound, for segmented streams *)
+Section Segmented.
+Variable cfg : config.
+Hypothesis Hinv : forall bs h rest, is_bytes bs = true ->
+  read_flat cfg bs = Ok h rest -> exists hd, bs = hd ++ rest /\ wf_header hd (adv_of h).
+
+Theorem accept_only_wf_segmented cs h rest : is_bytes (concat cs) = true ->
+  read_chunked cfg cs = Ok h rest -> exists hd, concat cs = hd ++ concat rest /\ wf_header hd (adv_of h).
+Proof.
+  intros Hby Hr. pose proof (segmentation_irrelevant cfg cs) as Hseg. rewrite Hr in Hseg.
+  destruct (read_flat cfg (concat cs)) as [h1 s1|t o] eqn:E; [|contradiction].
+  destruct Hseg as [-> Hf]. unfold flat_of in Hf. subst s1. exact (Hinv _ _ _ Hby E).
+Qed.
+
+(* a connection whose bytes do not start with a well-formed header fails, however they are segmented *)
+Theorem malformed_fails_segmented cs : is_bytes (concat cs) = true ->
+  (forall hd a rest, concat cs = hd ++ rest -> ~ wf_header hd a) ->
+  exists t o, read_chunked cfg cs = Err t o.
+Proof.
+  intros Hby Hno. destruct (read_chunked cfg cs) as [h rest|t o] eqn:E; [|exists t, o; reflexivity].
+  destruct (accept_only_wf_segmented cs h rest Hby E) as (hd & Hcs & Hwf). exfalso. exact (Hno _ _ _ Hcs Hwf).
+Qed.
+
+End Segmented.
